@@ -1110,19 +1110,21 @@ Proof.
   destruct (tls_ok c); reflexivity.
 Qed.
 
-Lemma tls_pair_independent : forall c, g_tls_cert c = Some true -> g_tls_key c = Some true ->
+Lemma tls_pair_independent : forall c, g_tls_cert c = Some LoadSome -> g_tls_key c = Some LoadSome ->
   accept c = accept (without_tls c).
 Proof. intros c H1 H2. rewrite accept_tls. unfold tls_ok. rewrite H1, H2. reflexivity. Qed.
 
 Lemma tls_key_alone_independent : forall c, g_tls_cert c = None -> accept c = accept (without_tls c).
 Proof. intros c H1. rewrite accept_tls. unfold tls_ok. rewrite H1. reflexivity. Qed.
 
-Lemma reject_tls : forall c,
-  g_tls_cert c = Some false \/
-  (g_tls_cert c = Some true /\ (g_tls_key c = None \/ g_tls_key c = Some false)) -> accept c = false.
+Lemma reject_tls : forall c v,
+  (g_tls_cert c = Some v /\ v <> LoadSome) \/
+  (g_tls_cert c = Some LoadSome /\ g_tls_key c <> Some LoadSome) -> accept c = false.
 Proof.
-  intros c H. rewrite accept_tls. unfold tls_ok.
-  destruct H as [H|[H [K|K]]]; rewrite H; try rewrite K; reflexivity.
+  intros c v H. rewrite accept_tls. unfold tls_ok.
+  destruct H as [[H N]|[H K]]; rewrite H.
+  - destruct v; try reflexivity. congruence.
+  - destruct (g_tls_key c) as [[| |]|]; try reflexivity. congruence.
 Qed.
 
 Lemma built_settings : forall c pools, accept c = true -> small c -> typed c -> build c = Built pools ->
